@@ -209,18 +209,52 @@ theorem inv_step (A B : UInt8) (sa sb : Bytes) (borrow diff : W32) (h : Inv sa s
 
 theorem inv_nil : Inv [] [] 0 0 := by simp [Inv, lexCmp]
 
+/-- `nz = (diff | -diff) >> 31` is 0 for diff = 0 -/
+theorem nz_zero : (((0 : W32) ||| (0 - 0)) >>> 31) = 0 := by decide
+
+/-- `nz = (diff | -diff) >> 31` is 1 for diff ≠ 0: diff or its negation has the top bit set -/
+theorem nz_ne (d : W32) (h : d ≠ 0) : ((d ||| (0 - d)) >>> 31) = 1 := by
+  rw [← BitVec.toNat_inj]
+  have hd : d.toNat ≠ 0 := fun e => h (BitVec.toNat_inj.mp (by simpa using e))
+  have hlt := d.isLt
+  have t0 : (0 : W32).toNat = 0 := rfl
+  have t1 : (1 : W32).toNat = 1 := rfl
+  simp only [BitVec.toNat_ushiftRight, BitVec.toNat_or, BitVec.toNat_sub, t0, t1,
+    Nat.shiftRight_eq_div_pow, Nat.add_zero]
+  have h1 : d.toNat ≤ d.toNat ||| ((2 ^ 32 - d.toNat) % 2 ^ 32) := Nat.left_le_or
+  have h2 : ((2 ^ 32 - d.toNat) % 2 ^ 32) ≤ d.toNat ||| ((2 ^ 32 - d.toNat) % 2 ^ 32) :=
+    Nat.right_le_or
+  have h3 : d.toNat ||| ((2 ^ 32 - d.toNat) % 2 ^ 32) < 2 ^ 32 :=
+    Nat.or_lt_two_pow hlt (Nat.mod_lt _ (by decide))
+  generalize d.toNat ||| ((2 ^ 32 - d.toNat) % 2 ^ 32) = o at *
+  omega
+
+/-- the branch-free result expression of the code, as a function of the final loop state -/
+def result (borrow diff : W32) : Int :=
+  (((((diff ||| (0 - diff)) >>> 31) &&& (1 - borrow)).toNat : Int)) - (borrow.toNat : Int)
+
 /-- reading off the result from the final invariant -/
 theorem inv_result (x y : Bytes) (borrow diff : W32) (h : Inv x y borrow diff) :
-    (if borrow = 0 then (if diff ≠ 0 then (1 : Int) else 0) else -1) = lexCmp x y := by
+    result borrow diff = lexCmp x y := by
   obtain ⟨hb, hd⟩ := h
+  unfold result
   rcases hb with ⟨rfl, hl⟩ | ⟨rfl, hl⟩
-  · simp [hl]
-  · simp only [if_true]
+  · -- borrow = 1: nz &&& 0 = 0, result -1
+    rw [hl]
+    have : (1 : W32) - 1 = 0 := by decide
+    rw [this]
+    have hz : ((diff ||| (0 - diff)) >>> 31 &&& (0 : W32)) = 0 := BitVec.and_zero
+    rw [hz]; rfl
+  · have e10 : (1 : W32) - 0 = 1 := by decide
+    rw [e10]
     by_cases e : diff = 0
-    · have := hd.mp e; subst this; simp [e, lexCmp_self]
+    · have := hd.mp e; subst this; subst e
+      rw [nz_zero, lexCmp_self]; rfl
     · have hne : x ≠ y := fun h => e (hd.mpr h)
       have h0 : lexCmp x y ≠ 0 := fun h => hne ((lexCmp_eq_zero x y).mp h)
-      simp only [ne_eq, e, not_false_eq_true, if_true]
+      rw [nz_ne diff e]
+      have : ((((1 : W32) &&& 1).toNat : Int)) - (((0 : W32).toNat : Nat) : Int) = 1 := by decide
+      rw [this]
       rcases lexCmp_range x y with h | h | h <;> omega
 
 theorem cmpLoop_inv (a b : Bytes) (l : Nat) (ha : l ≤ a.length) (hb : l ≤ b.length) :
@@ -263,9 +297,7 @@ theorem cmp_ok (a b : Bytes) (l : Nat) (ha : l ≤ a.length) (hb : l ≤ b.lengt
   have hres := inv_result _ _ bo df hinv
   simp only [constantTimeCmp, Int.toNat_natCast, hrun, Outcome.bind_ok]
   rw [← hres]
-  by_cases e1 : bo = 0 <;> by_cases e2 : df = 0 <;>
-    simp only [e1, e2, if_true, if_false, ne_eq, not_true_eq_false, not_false_eq_true,
-      Outcome.pure_eq]
+  rfl
 
 theorem cmp_total (a b : Option Bytes) (l : Int) : constantTimeCmp a b l = Spec.Utils.cmp a b l := by
   cases a with
